@@ -8,7 +8,9 @@ MODEL_BIN = BUILD + "/ocaml/model_driver"
 
 class ModelProc:
     def __init__(self):
-        self.p = subprocess.Popen([MODEL_BIN], stdin=subprocess.PIPE, stdout=subprocess.PIPE, bufsize=0)
+        env = dict(os.environ, OCAMLRUNPARAM="s=32M")       # big minor heap: deep non-tail recursions are scanned at every minor GC
+        self.p = subprocess.Popen(["/bin/sh", "-c", "ulimit -s unlimited 2>/dev/null || ulimit -s 4000000; exec " + MODEL_BIN],
+                                  stdin=subprocess.PIPE, stdout=subprocess.PIPE, bufsize=0, env=env)
         self.rf = os.fdopen(self.p.stdout.fileno(), "rb", buffering=1 << 16, closefd=False)
         self.hash_queries = 0
 
